@@ -360,7 +360,10 @@ def execute(plan, tape):
                 extra = []
                 r = solve_like("solve", pf.solve, live(), pf)
                 if r[0] == "raised":
-                    return
+                    # the portfolio reported the failure: it stays usable for the next query
+                    sat_mode = False
+                    probe("continued_after_reported_failure")
+                    continue
                 sat_mode = bool(r[1])
             elif k in ONESHOT:
                 if not plan["incremental"]:
@@ -371,7 +374,11 @@ def execute(plan, tape):
                 si = state["solve_no"]
                 r = solve_like(k, lambda: getattr(pf, k)(f), base + [q], pf, negate=(k != "is_sat"))
                 if r[0] == "raised":
-                    return
+                    # (a one-shot query that raised may or may not have left its level: handled by the
+                    # pending-pop logic; the run goes on and later verdicts are still checked)
+                    extra, sat_mode = [], False
+                    probe("continued_after_reported_failure")
+                    continue
                 # solve_like compared the raw verdict with sat(base+q); undo the negation
                 extra = [q]
                 sat_mode = _sat(base + [q])
@@ -451,7 +458,7 @@ def execute(plan, tape):
                 r = solve_like("shortcut." + sk, lambda: getattr(sc, sk)(f, portfolio=names, logic=QF_BV), [q], None,
                                negate=(sk != "is_sat"))
                 if r[0] == "raised":
-                    return
+                    probe("continued_after_reported_failure")
             trace.append((k, o.get("n"), model.depth))
         api("exit", pf.exit)
 
